@@ -252,6 +252,20 @@ class FermionicArray(AbelianArray):
             other, fn, inplace=True, **kwargs
         )
 
+    def _do_reduction(self, fn):
+        """Need to sync phases before reducing over the raw blocks."""
+        return AbelianArray._do_reduction(self.phase_sync(), fn)
+
+    def _do_unary_op(self, fn, inplace=False):
+        """Need to sync phases before applying (non-linear) elementwise
+        functions to the raw blocks."""
+        new = self.phase_sync(inplace=inplace)
+        return AbelianArray._do_unary_op(new, fn, inplace=True)
+
+    def clip(self, a_min, a_max):
+        """Clip the values in the array, with lazy phases multiplied in."""
+        return AbelianArray.clip(self.phase_sync(), a_min, a_max)
+
     def _map_blocks(self, fn_block=None, fn_sector=None):
         super()._map_blocks(fn_block, fn_sector)
         if fn_sector is not None:
